@@ -17,7 +17,7 @@ def search(prop, o, seconds=45):
     wd = tempfile.mkdtemp(prefix="witness-", dir="/dev/shm")
     try:
         shutil.copytree(os.path.join(VERIF, "replay", "src"), os.path.join(wd, "src"))
-        open(os.path.join(wd, "Cargo.toml"), "w").write(open(os.path.join(VERIF, "replay", "Cargo.toml.in")).read().replace("@REPO@", REPO))
+        open(os.path.join(wd, "Cargo.toml"), "w").write(open(os.path.join(VERIF, "replay", "Cargo.toml.in")).read().replace("@REPO@", REPO).replace("@QWT_FEATURES@", _FEAT.get("v", "")))
         lock = os.path.join(VERIF, "replay", "Cargo.lock")
         if os.path.exists(lock):
             shutil.copy(lock, os.path.join(wd, "Cargo.lock"))
@@ -53,6 +53,8 @@ def search(prop, o, seconds=45):
 # program, run for a fixed time budget per suite on every check.  Results are cached by the content of /repo/src,
 # the program's source, the suite, the budget and the seed.
 import hashlib
+import threading
+_FEAT_LOCK = threading.Lock()
 
 
 def _digest(extra):
@@ -74,16 +76,18 @@ def _digest(extra):
 
 
 _BUILD = {}
+_FEAT = {}   # "v": extra text in the dependency line (", default-features = false" for the build without the prefetch feature)
 
 
 def build_program():
     """builds the witness program against the current tree once per process; returns (exe, error)"""
-    if "r" in _BUILD:
-        return _BUILD["r"]
+    bkey = "r" + _FEAT.get("v", "")
+    if bkey in _BUILD:
+        return _BUILD[bkey]
     wd = tempfile.mkdtemp(prefix="witness-", dir="/dev/shm")
     try:
         shutil.copytree(os.path.join(VERIF, "replay", "src"), os.path.join(wd, "src"))
-        open(os.path.join(wd, "Cargo.toml"), "w").write(open(os.path.join(VERIF, "replay", "Cargo.toml.in")).read().replace("@REPO@", REPO))
+        open(os.path.join(wd, "Cargo.toml"), "w").write(open(os.path.join(VERIF, "replay", "Cargo.toml.in")).read().replace("@REPO@", REPO).replace("@QWT_FEATURES@", _FEAT.get("v", "")))
         lock = os.path.join(VERIF, "replay", "Cargo.lock")
         if os.path.exists(lock):
             shutil.copy(lock, os.path.join(wd, "Cargo.lock"))
@@ -97,25 +101,31 @@ def build_program():
             fcntl.flock(lk, fcntl.LOCK_EX)
             b = subprocess.run(["cargo", "build", "--release", "--offline", "--bin", "qwt-witness"], cwd=wd, env=env, capture_output=True, text=True, timeout=1800)
             if b.returncode != 0:
-                _BUILD["r"] = (None, b.stderr[-1500:])
+                _BUILD[bkey] = (None, b.stderr[-1500:])
             else:
-                exe = os.path.join("/dev/shm", "qwt-witness-%s" % _digest("exe"))
+                exe = os.path.join("/dev/shm", "qwt-witness-%s" % _digest("exe" + _FEAT.get("v", "")))
                 shutil.copy(os.path.join(tdir, "release", "qwt-witness"), exe + ".tmp%d" % os.getpid())
                 os.replace(exe + ".tmp%d" % os.getpid(), exe)
-                _BUILD["r"] = (exe, None)
+                _BUILD[bkey] = (exe, None)
     finally:
         shutil.rmtree(wd, ignore_errors=True)
-    return _BUILD["r"]
+    return _BUILD[bkey]
 
 
-def run_suite(suite, seconds, seed):
+def run_suite(suite, seconds, seed, no_default_features=False):
+    """no_default_features: build the crate without its default `prefetch` feature (C09 quantifies over both)"""
+    import threading
+    with _FEAT_LOCK:
+        _FEAT["v"] = ", default-features = false" if no_default_features else ""
+        exe_err = build_program()
+        _FEAT["v"] = ""
     cdir = os.path.join(VERIF, ".cache", "wx")
     os.makedirs(cdir, exist_ok=True)
-    key = _digest((suite, seconds, seed))
+    key = _digest((suite, seconds, seed, bool(no_default_features)))
     cp = os.path.join(cdir, key + ".json")
     if os.path.exists(cp) and not os.environ.get("VERIF_NOCACHE"):
         return json.load(open(cp))
-    exe, err = build_program()
+    exe, err = exe_err
     if exe is None:
         return {"suite": suite, "built": False, "found": False, "note": "witness program does not build against this tree", "build_error": err}
     try:
@@ -141,7 +151,7 @@ def check_send_sync():
     wd = tempfile.mkdtemp(prefix="sendsync-", dir="/dev/shm")
     try:
         shutil.copytree(os.path.join(VERIF, "replay", "src"), os.path.join(wd, "src"))
-        open(os.path.join(wd, "Cargo.toml"), "w").write(open(os.path.join(VERIF, "replay", "Cargo.toml.in")).read().replace("@REPO@", REPO))
+        open(os.path.join(wd, "Cargo.toml"), "w").write(open(os.path.join(VERIF, "replay", "Cargo.toml.in")).read().replace("@REPO@", REPO).replace("@QWT_FEATURES@", _FEAT.get("v", "")))
         lock = os.path.join(VERIF, "replay", "Cargo.lock")
         if os.path.exists(lock):
             shutil.copy(lock, os.path.join(wd, "Cargo.lock"))
